@@ -9,7 +9,7 @@ FINISH = dict(level="model_checking",
                    "V: seeded churn on json_objects (24 keys incl. empty/long/colliding, both string hashes, "
                    "add_ex flags, delete-while-iterating); every recorded call + all iteration forms + all "
                    "lookups validated by TLC against OrderedMap")
-MUTS = ["stop_at_tomb", "no_wrap", "resize_slot_order", "delete_keeps_links", "iter_next_after_body"]
+MUTS = ["stop_at_tomb", "no_wrap", "resize_slot_order", "delete_keeps_links", "iter_next_after_body", "resize_keeps_request"]
 KID = {"a": 1, "b": 2, "c": 3, "d": 4, "e": 5}
 
 
@@ -28,6 +28,8 @@ def script_of(hist):
             out.append("n %d %d" % (KID[c["k"]], c["v"]))
         elif op == "del":
             out.append("d %d" % KID[c["k"]])
+        elif op == "resize":
+            out.append("r %d" % c["v"])
         elif op == "fdel":
             out.append("f " + " ".join(str(KID[k]) for k in c["ks"]))
     return ";".join(out)
@@ -35,6 +37,7 @@ def script_of(hist):
 
 def run(ck):
     thorough = ck.tier == "thorough"
+    os.environ["VH_WATCHDOG"] = "30"   # no call on these small tables takes a second; a probe loop without exit must not stall the check
     ck.assumptions += ["ASan/UBSan observe the real code during every replayed/recorded history",
                        "hash seeds: the seeded default hash is exercised with the seed of each harness process (several per run)",
                        "F stage: every allocation request of the last call of a history is failed in turn (interposed allocator); the call must then report failure with the map as it was, or succeed as usual"]
@@ -45,6 +48,13 @@ def run(ck):
     # ---- G: edge cover of the LinkHash graph
     hists, r = vlib.tlc_export_edges("GLinkHash", "C06_g.cfg", timeout=1800, xmx="8g")
     ck.add_tlc(r)
+    # ... and of the graph with lh_table_resize called by the user (sizes 1, 2, 5 on 4 keys)
+    ck.mc("MCLinkHash", "C06_mc_rz.cfg", workers=8, xmx="8g", timeout=1800)
+    hists2, r = vlib.tlc_export_edges("GLinkHash", "C06_g_rz.cfg", timeout=1800, xmx="8g")
+    ck.add_tlc(r)
+    hists2 = [h for h in hists2 if any(c["op"] == "resize" for c in h)]
+    ck.extra["g_edges_resize"] = len(hists2)
+    hists = hists + hists2
     stride = 1 if thorough else 16
     pick = [h for i, h in enumerate(hists) if i % stride == vlib.SEED % stride]
     scripts = [script_of(h) for h in pick]
@@ -58,7 +68,7 @@ def run(ck):
         deaths = vlib.run_executions(exe, lambda st: ["c06", "replay", sp, st, lvl], len(scripts), tp)
         vlib.conformance(ck, name, "TraceOrderedMap", "trace.cfg", tp, deaths, diag_of, min_events=len(scripts))
     # ---- F: the histories that end in an insertion, with every allocation request of that call failed in turn
-    fscripts = [script_of(h) for i, h in enumerate(hists) if h[-1]["op"] in ("add", "addnew") and (thorough or i % 4 == vlib.SEED % 4)]
+    fscripts = [script_of(h) for i, h in enumerate(hists) if h[-1]["op"] in ("add", "addnew", "resize") and (thorough or i % 4 == vlib.SEED % 4)]
     ck.extra["f_scripts"] = len(fscripts)
     fp = os.path.join(ck.dir, "f.scripts")
     with open(fp, "w") as f:
